@@ -213,6 +213,10 @@ class C14(Prop):
         tag = "shape" if "shape" in case else "bulk-" + sc["kind"]
         res.label(tag + "-family", tag + ("-refused" if exc else "-accepted"))
         if exc is None:
+            if "shape" in case and not sc["compatible"]:
+                # the property's own list of refusals names "mismatching references": the setter
+                # documents (asserts) equal port shapes
+                res.violate("C14:mismatching-reference-accepted:shape", "widths %r -> %r" % tuple(case["shape"]))
             return res
         res.nontrivial = True
         S1 = snapshot(U)
